@@ -215,6 +215,27 @@ def check_case(case):
                 return Verdict("known", finding="C19-void-element-with-children", nontrivial=True)
             return Verdict("fail", "%s walker -> to_sax: %s; input %s container=%r ns=%s" % (builder, msg, short(text, 160), container, ns),
                            "sax:" + msg.split(":")[0][:50], nontrivial=True)
+    # a walker over another ElementTree implementation (getTreeWalker('etree', implementation=X)), requested after the default one:
+    # to_sax gives the same events whichever implementation holds the tree
+    if not known_trigger:
+        try:
+            import html5lib
+            from html5lib import treebuilders, treewalkers
+            A = h5.alt_etree()
+            treewalkers.getTreeWalker("etree")
+            pa = html5lib.HTMLParser(treebuilders.getTreeBuilder("etree", implementation=A, fullTree=True), namespaceHTMLElements=ns)
+            ra = pa.parse(text, scripting=scripting) if doc else pa.parseFragment(text, container=container, scripting=scripting)
+            rec_a, rec_d = Recorder(), Recorder()
+            sax.to_sax(treewalkers.getTreeWalker("etree", implementation=A)(ra), rec_a)
+            r, p = h5.parse(text, builder="etree", namespace=ns, scripting=scripting, container=container, full_tree=True)
+            sax.to_sax(h5.walk(r, "etree"), rec_d)
+        except Exception as e:
+            return Verdict("fail", "to_sax over the etree walker with implementation=<pure-Python ElementTree> raised %s: %s; input %s container=%r"
+                           % (type(e).__name__, short(str(e), 100), short(text, 160), container), "alt-implementation-exception:" + type(e).__name__, nontrivial=True)
+        if rec_a.events != rec_d.events:
+            k = next((i for i, (a, b) in enumerate(zip(rec_a.events, rec_d.events)) if a != b), min(len(rec_a.events), len(rec_d.events)))
+            return Verdict("fail", "to_sax events depend on the ElementTree implementation holding the tree: event %d is %s (pure-Python) vs %s (default); input %s"
+                           % (k, short(rec_a.events[k:k + 1], 100), short(rec_d.events[k:k + 1], 100), short(text, 160)), "alt-implementation-differs", nontrivial=True)
     return Verdict("pass", nontrivial=nontrivial, sig=sig64(shape, doc, ns))
 
 
